@@ -293,6 +293,10 @@ def molecules(rng, nrand=3):
               (1, (-0.4, -0.5, -0.9)), (1, (3.1, -0.9, 0.3))]
     out.append([{"z": z, "p": [q(v) for v in p]} for z, p in water])
     out.append([{"z": z, "p": [q(v) for v in p]} for z, p in acetic])
+    # a single atom away from the origin (a one-atom density), and a rod 11 A long (the surface reaches 8-9 A from the centroid
+    # along the rod: any pose-dependent shortcut in the search bounds shows when the rod points along a body diagonal)
+    out.append([{"z": 8, "p": [q(1.3), q(-0.7), q(2.1)]}])
+    out.append([{"z": 6 if i % 4 else 7, "p": [q(1.22 * i - 5.0), q(0.31 * (i % 2)), q(0.2)]} for i in range(10)])
     for _ in range(nrand):
         n = rng.randint(3, 8)
         atoms = []
@@ -348,7 +352,7 @@ def run(ctx):
                 if kind == "molecule" and channel == "esp" and ctx.quick:
                     continue
                 for lmax in lmaxes:
-                    if ctx.quick and (mi + lmax + len(kind) + len(channel)) % 3:
+                    if ctx.quick and (mi + lmax + len(kind) + len(channel)) % 3 and not (len(inner) == 1 and lmax == lmaxes[0]):
                         continue
                     pool = [w for w in words if (kind == "stockholder" or "E:" not in w)]
                     # exterior swaps / translations need an environment
